@@ -48,121 +48,103 @@ fn victim_from_recent(pre: &TqAbs, at_quota_counts: bool) -> bool {
     }
 }
 
-#[kani::proof]
-#[kani::unwind(6)]
-fn tq_put_frequent_hit() {
-    let (mut c, pre) = any_tq();
-    let k: u8 = kani::any();
-    let v: u8 = kani::any();
-    kani::assume(pre.frequent.has(k));
-    kani::cover!(pre.frequent.n >= 2, "2q put: frequent hit among several");
-    let r = c.put(k, v);
-    let (post, wf) = c.verif_check();
-    tq_inv!(c, wf, pre, post);
-    let i = pre.frequent.pos(k).unwrap();
-    assert!(pr_of(&r) == PR::Update(pre.frequent.v[i]), "[C12.result] put on a frequent entry returns Update(old)");
-    assert!(post.frequent.view_eq(&pre.frequent.touch(i, Some(v))) && post.recent == pre.recent && post.ghost == pre.ghost,
-        "[C08.frequent][C02.value] put on a frequent entry refreshes it with the new value; nothing else changes");
-    c.verif_forget();
-}
 
-#[kani::proof]
-#[kani::unwind(6)]
-fn tq_put_recent_hit() {
-    let (mut c, pre) = any_tq();
-    let k: u8 = kani::any();
-    let v: u8 = kani::any();
-    kani::assume(pre.recent.has(k));
-    kani::cover!(pre.recent.n >= 2, "2q put: recent hit among several");
-    kani::cover!(pre.recent.n + pre.frequent.n == pre.size, "2q put: recent hit in a full cache");
-    let r = c.put(k, v);
-    let (post, wf) = c.verif_check();
-    tq_inv!(c, wf, pre, post);
-    let i = pre.recent.pos(k).unwrap();
-    assert!(pr_of(&r) == PR::Update(pre.recent.v[i]), "[C12.result] put on a recent entry returns Update(old)");
-    assert!(post.recent.view_eq(&pre.recent.remove_at(i)) && post.frequent.view_eq(&pre.frequent.push_front(k, v)) && post.ghost == pre.ghost,
-        "[C08.promote][C02.value] a second access by put moves the entry from recent to the front of frequent with the new value");
-    c.verif_forget();
-}
 
+
+
+
+
+
+
+// One harness for `put` (CBMC executes every branch of the real `put` whatever the key's location is assumed
+// to be, so the four cases share one run); the postcondition is selected by where the key was in the pre-state.
 #[kani::proof]
 #[kani::unwind(6)]
-fn tq_put_ghost_hit() {
+fn tq_put() {
     let (mut c, pre) = any_tq();
     let k: u8 = kani::any();
     let v: u8 = kani::any();
-    kani::assume(pre.ghost.has(k));
     let full = pre.recent.n + pre.frequent.n >= pre.size;
-    kani::cover!(!full, "2q ghost hit: cache has room");
-    kani::cover!(full && pre.recent.n > pre.recent_size, "2q ghost hit: full, recent over quota");
-    kani::cover!(full && pre.recent.n <= pre.recent_size && pre.frequent.n > 0, "2q ghost hit: full, victim from frequent");
-    kani::cover!(full && pre.recent.n <= pre.recent_size && pre.frequent.n == 0, "2q ghost hit: full, frequent empty (fallback to recent)");
-    kani::cover!(full && pre.ghost.n == pre.ghost.cap && pre.ghost.n >= 2, "2q ghost hit: full and ghost full");
+    let in_frequent = pre.frequent.has(k);
+    let in_recent = pre.recent.has(k);
+    let in_ghost = pre.ghost.has(k);
+    let is_new = !in_frequent && !in_recent && !in_ghost;
+
+    kani::cover!((in_frequent) && (pre.frequent.n >= 2), "2q put: frequent hit among several");
+
+    kani::cover!((in_recent) && (pre.recent.n >= 2), "2q put: recent hit among several");
+    kani::cover!((in_recent) && (pre.recent.n + pre.frequent.n == pre.size), "2q put: recent hit in a full cache");
+
+    kani::cover!((in_ghost) && (!full), "2q ghost hit: cache has room");
+    kani::cover!((in_ghost) && (full && pre.recent.n > pre.recent_size), "2q ghost hit: full, recent over quota");
+    kani::cover!((in_ghost) && (full && pre.recent.n <= pre.recent_size && pre.frequent.n > 0), "2q ghost hit: full, victim from frequent");
+    kani::cover!((in_ghost) && (full && pre.recent.n <= pre.recent_size && pre.frequent.n == 0), "2q ghost hit: full, frequent empty (fallback to recent)");
+    kani::cover!((in_ghost) && (full && pre.ghost.n == pre.ghost.cap && pre.ghost.n >= 2), "2q ghost hit: full and ghost full");
+
+    kani::cover!((is_new) && (!full), "2q new key: room");
+    kani::cover!((is_new) && (full && pre.recent.n >= pre.recent_size && pre.recent.n > 0), "2q new key: full, victim from recent");
+    kani::cover!((is_new) && (full && pre.recent.n < pre.recent_size), "2q new key: full, victim from frequent");
+    kani::cover!((is_new) && (full && pre.recent.n == 0 && pre.recent_size == 0), "2q new key: full, quota 0 and recent empty (fallback to frequent)");
+    kani::cover!((is_new) && (full && pre.ghost.n == pre.ghost.cap), "2q new key: full and ghost full");
     let r = c.put(k, v);
     let (post, wf) = c.verif_check();
     tq_inv!(c, wf, pre, post);
-    let gi = pre.ghost.pos(k).unwrap();
-    let old = pre.ghost.v[gi];
-    let ghost_wo_k = pre.ghost.remove_at(gi);
-    assert!(put_result_truthful(&[&pre.recent, &pre.frequent, &pre.ghost], &[&post.recent, &post.frequent, &post.ghost], k, v, pr_of(&r)),
-        "[C12.result][C12.delta] a put on a ghost key reports Update(old) (or EvictedAndUpdate when the ghost list overflowed) and nothing else leaves");
-    if !full {
-        assert!(pr_of(&r) == PR::Update(old), "[C12.result][C08.revive] reviving a ghost returns Update(old)");
-        assert!(post.frequent.view_eq(&pre.frequent.push_front(k, v)) && post.recent == pre.recent && post.ghost.view_eq(&ghost_wo_k),
-            "[C08.revive][C02.value] a put on a ghost key revives it directly into the front of frequent");
-    } else {
-        let from_recent = victim_from_recent(&pre, false);
-        let (vk, vv) = if from_recent { pre.recent.last().unwrap() } else { pre.frequent.last().unwrap() };
-        let (er, ef) = if from_recent { (pre.recent.drop_last(), pre.frequent) } else { (pre.recent, pre.frequent.drop_last()) };
-        assert!(post.recent.view_eq(&er) && post.frequent.view_eq(&ef.push_front(k, v)),
-            "[C08.victim][C08.revive] full cache: the victim is recent's LRU if recent is over quota, else frequent's LRU (falling back to the non-empty queue); the ghost key is revived into the front of frequent");
-        assert!(post.ghost.first() == Some((vk, vv)) && !post.ghost.has(k), "[C08.ghost] the victim becomes the most recent ghost; the revived key is no longer a ghost");
-        match pr_of(&r) {
-            PR::Update(o) => assert!(o == old && post.ghost.view_eq(&ghost_wo_k.push_front(vk, vv)), "[C08.ghost][C12.result] ghost list = old ghosts minus the revived key, plus the victim at the front"),
-            PR::EvictedAndUpdate(ek, ev, o) => {
-                // the ghost list overflowed before the revived key was taken out: it dropped its own least-recent entry
-                let gl = pre.ghost.last().unwrap();
-                assert!(o == old && (ek, ev) == gl && pre.ghost.n == pre.ghost.cap,
-                    "[C08.ghost][C12.result] only an overflowing ghost list drops an entry, and then its own least-recent one");
-                let gj = ghost_wo_k.pos(ek).unwrap();
-                assert!(post.ghost.view_eq(&ghost_wo_k.remove_at(gj).push_front(vk, vv)), "[C08.ghost] remaining ghosts keep their order");
+    if in_frequent {
+        let i = pre.frequent.pos(k).unwrap();
+        assert!(pr_of(&r) == PR::Update(pre.frequent.v[i]), "[C12.result] put on a frequent entry returns Update(old)");
+        assert!(post.frequent.view_eq(&pre.frequent.touch(i, Some(v))) && post.recent == pre.recent && post.ghost == pre.ghost,
+            "[C08.frequent][C02.value] put on a frequent entry refreshes it with the new value; nothing else changes");
+    } else if in_recent {
+        let i = pre.recent.pos(k).unwrap();
+        assert!(pr_of(&r) == PR::Update(pre.recent.v[i]), "[C12.result] put on a recent entry returns Update(old)");
+        assert!(post.recent.view_eq(&pre.recent.remove_at(i)) && post.frequent.view_eq(&pre.frequent.push_front(k, v)) && post.ghost == pre.ghost,
+            "[C08.promote][C02.value] a second access by put moves the entry from recent to the front of frequent with the new value");
+    } else if in_ghost {
+        let gi = pre.ghost.pos(k).unwrap();
+        let old = pre.ghost.v[gi];
+        let ghost_wo_k = pre.ghost.remove_at(gi);
+        assert!(put_result_truthful(&[&pre.recent, &pre.frequent, &pre.ghost], &[&post.recent, &post.frequent, &post.ghost], k, v, pr_of(&r)),
+            "[C12.result][C12.delta] a put on a ghost key reports Update(old) (or EvictedAndUpdate when the ghost list overflowed) and nothing else leaves");
+        if !full {
+            assert!(pr_of(&r) == PR::Update(old), "[C12.result][C08.revive] reviving a ghost returns Update(old)");
+            assert!(post.frequent.view_eq(&pre.frequent.push_front(k, v)) && post.recent == pre.recent && post.ghost.view_eq(&ghost_wo_k),
+                "[C08.revive][C02.value] a put on a ghost key revives it directly into the front of frequent");
+        } else {
+            let from_recent = victim_from_recent(&pre, false);
+            let (vk, vv) = if from_recent { pre.recent.last().unwrap() } else { pre.frequent.last().unwrap() };
+            let (er, ef) = if from_recent { (pre.recent.drop_last(), pre.frequent) } else { (pre.recent, pre.frequent.drop_last()) };
+            assert!(post.recent.view_eq(&er) && post.frequent.view_eq(&ef.push_front(k, v)),
+                "[C08.victim][C08.revive] full cache: the victim is recent's LRU if recent is over quota, else frequent's LRU (falling back to the non-empty queue); the ghost key is revived into the front of frequent");
+            assert!(post.ghost.first() == Some((vk, vv)) && !post.ghost.has(k), "[C08.ghost] the victim becomes the most recent ghost; the revived key is no longer a ghost");
+            match pr_of(&r) {
+                PR::Update(o) => assert!(o == old && post.ghost.view_eq(&ghost_wo_k.push_front(vk, vv)), "[C08.ghost][C12.result] ghost list = old ghosts minus the revived key, plus the victim at the front"),
+                PR::EvictedAndUpdate(ek, ev, o) => {
+                    // the ghost list overflowed before the revived key was taken out: it dropped its own least-recent entry
+                    let gl = pre.ghost.last().unwrap();
+                    assert!(o == old && (ek, ev) == gl && pre.ghost.n == pre.ghost.cap,
+                        "[C08.ghost][C12.result] only an overflowing ghost list drops an entry, and then its own least-recent one");
+                    let gj = ghost_wo_k.pos(ek).unwrap();
+                    assert!(post.ghost.view_eq(&ghost_wo_k.remove_at(gj).push_front(vk, vv)), "[C08.ghost] remaining ghosts keep their order");
+                }
+                _ => assert!(false, "[C12.result] a put on a ghost key is an update"),
             }
-            _ => assert!(false, "[C12.result] a put on a ghost key is an update"),
         }
-    }
-    c.verif_forget();
-}
-
-#[kani::proof]
-#[kani::unwind(6)]
-fn tq_put_new() {
-    let (mut c, pre) = any_tq();
-    let k: u8 = kani::any();
-    let v: u8 = kani::any();
-    kani::assume(!pre.recent.has(k) && !pre.frequent.has(k) && !pre.ghost.has(k));
-    let full = pre.recent.n + pre.frequent.n >= pre.size;
-    kani::cover!(!full, "2q new key: room");
-    kani::cover!(full && pre.recent.n >= pre.recent_size && pre.recent.n > 0, "2q new key: full, victim from recent");
-    kani::cover!(full && pre.recent.n < pre.recent_size, "2q new key: full, victim from frequent");
-    kani::cover!(full && pre.recent.n == 0 && pre.recent_size == 0, "2q new key: full, quota 0 and recent empty (fallback to frequent)");
-    kani::cover!(full && pre.ghost.n == pre.ghost.cap, "2q new key: full and ghost full");
-    let r = c.put(k, v);
-    let (post, wf) = c.verif_check();
-    tq_inv!(c, wf, pre, post);
-    assert!(put_result_truthful(&[&pre.recent, &pre.frequent, &pre.ghost], &[&post.recent, &post.frequent, &post.ghost], k, v, pr_of(&r)),
-        "[C12.result][C12.delta] a put of a new key reports Put, or Evicted with the ghost entry that was dropped; nothing else leaves");
-    assert!(post.recent.first() == Some((k, v)), "[C08.enter][C02.value] a key seen once lives at the front of the recent queue");
-    if !full {
-        assert!(pr_of(&r) == PR::Put && post.recent.view_eq(&pre.recent.push_front(k, v)) && post.frequent == pre.frequent && post.ghost == pre.ghost,
-            "[C08.enter][C12.result] with room nothing else changes and the result is Put");
-    } else {
-        let from_recent = victim_from_recent(&pre, true);
-        let (vk, vv) = if from_recent { pre.recent.last().unwrap() } else { pre.frequent.last().unwrap() };
-        let (er, ef) = if from_recent { (pre.recent.drop_last(), pre.frequent) } else { (pre.recent, pre.frequent.drop_last()) };
-        assert!(post.recent.view_eq(&er.push_front(k, v)) && post.frequent.view_eq(&ef),
-            "[C08.victim] full cache: the victim is recent's LRU if recent is at or over quota, else frequent's LRU, falling back to the non-empty queue");
-        let (eg, egr) = spec_lru_put(&pre.ghost, vk, vv);
-        assert!(post.ghost.view_eq(&eg) && pr_of(&r) == egr, "[C08.ghost][C12.result] the victim becomes the most recent ghost; an overflowing ghost list drops its own least-recent entry, which is reported");
+    } else if is_new {
+        assert!(put_result_truthful(&[&pre.recent, &pre.frequent, &pre.ghost], &[&post.recent, &post.frequent, &post.ghost], k, v, pr_of(&r)),
+            "[C12.result][C12.delta] a put of a new key reports Put, or Evicted with the ghost entry that was dropped; nothing else leaves");
+        assert!(post.recent.first() == Some((k, v)), "[C08.enter][C02.value] a key seen once lives at the front of the recent queue");
+        if !full {
+            assert!(pr_of(&r) == PR::Put && post.recent.view_eq(&pre.recent.push_front(k, v)) && post.frequent == pre.frequent && post.ghost == pre.ghost,
+                "[C08.enter][C12.result] with room nothing else changes and the result is Put");
+        } else {
+            let from_recent = victim_from_recent(&pre, true);
+            let (vk, vv) = if from_recent { pre.recent.last().unwrap() } else { pre.frequent.last().unwrap() };
+            let (er, ef) = if from_recent { (pre.recent.drop_last(), pre.frequent) } else { (pre.recent, pre.frequent.drop_last()) };
+            assert!(post.recent.view_eq(&er.push_front(k, v)) && post.frequent.view_eq(&ef),
+                "[C08.victim] full cache: the victim is recent's LRU if recent is at or over quota, else frequent's LRU, falling back to the non-empty queue");
+            let (eg, egr) = spec_lru_put(&pre.ghost, vk, vv);
+            assert!(post.ghost.view_eq(&eg) && pr_of(&r) == egr, "[C08.ghost][C12.result] the victim becomes the most recent ghost; an overflowing ghost list drops its own least-recent entry, which is reported");
+        }
     }
     c.verif_forget();
 }
@@ -336,4 +318,41 @@ fn tq_drop() {
     let (c, a) = any_tq();
     kani::cover!(a.recent.n > 0 && a.frequent.n > 0 && a.ghost.n > 0, "2q drop: all queues populated");
     drop(c);
+}
+
+// ------------------------------------------------------------------ constructor contract (C05, C08 last sentence)
+
+fn ratio_ok(r: f64) -> bool {
+    r >= 0.0 && r <= 1.0
+}
+
+// kind: proved (size ranges over all usize, both ratios over all f64 incl. NaN, infinities, subnormals; floor/mul are CBMC's float model)
+#[kani::proof]
+#[kani::unwind(6)]
+fn tq_builder_finalize_contract() {
+    let size: usize = kani::any();
+    let rr: f64 = kani::any();
+    let gr: f64 = kani::any();
+    kani::cover!(size == 1 && rr == 0.0 && gr == 1.0, "2q ctor: size 1, ratio boundaries");
+    kani::cover!(rr != rr, "2q ctor: NaN recent ratio");
+    kani::cover!(size > 0 && ratio_ok(rr) && ratio_ok(gr) && crate::polyfill::floor((size as f64) * gr) as usize == 0, "2q ctor: ghost bound floors to 0");
+    let b = TwoQueueCacheBuilder { size, ghost_ratio: Some(gr), recent_ratio: Some(rr), recent_hasher: Some(PoisonHasher), freq_hasher: Some(PoisonHasher), ghost_hasher: Some(PoisonHasher) };
+    let r: Result<Tq, CacheError> = b.finalize();
+    let quota = crate::polyfill::floor((size as f64) * rr) as usize;
+    let ghost = crate::polyfill::floor((size as f64) * gr) as usize;
+    match r {
+        Err(CacheError::InvalidSize(s)) => assert!(s == 0 && (size == 0 || (ratio_ok(rr) && ratio_ok(gr) && ghost == 0)), "[C05.ctor] InvalidSize(0) exactly for size 0 or a ghost bound that floors to 0"),
+        Err(CacheError::InvalidRecentRatio(x)) => assert!(size != 0 && !ratio_ok(rr) && (x == rr || rr != rr), "[C05.ctor] InvalidRecentRatio exactly for a recent ratio outside [0,1] or NaN"),
+        Err(CacheError::InvalidGhostRatio(x)) => assert!(size != 0 && ratio_ok(rr) && !ratio_ok(gr) && (x == gr || gr != gr), "[C05.ctor] InvalidGhostRatio exactly for a ghost ratio outside [0,1] or NaN"),
+        Ok(c) => {
+            assert!(size != 0 && ratio_ok(rr) && ratio_ok(gr) && ghost != 0, "[C05.ctor] construction succeeds only for valid arguments");
+            let (a, wf) = c.verif_check();
+            assert!(wf && a.recent.n == 0 && a.frequent.n == 0 && a.ghost.n == 0, "[C05.ctor][C03.wf] a fresh 2Q cache is empty and well formed");
+            assert!(a.size == size && a.recent.cap == size && a.frequent.cap == size, "[C08.sizes] both resident queues can hold `size` entries");
+            assert!(a.recent_size == quota, "[C08.sizes] the recent quota is floor(size x recent ratio)");
+            assert!(a.ghost.cap == ghost, "[C08.sizes] the ghost bound is floor(size x ghost ratio)");
+            assert!(quota <= size && ghost <= size, "[C01.cap][C08.sizes] quota and ghost bound never exceed the size");
+            c.verif_forget();
+        }
+    }
 }
